@@ -92,6 +92,13 @@ def run_case(case):
     all_cls, any_nt = [], False
     vectors = [weights] + [dict(w) for w in case.get('more_weights', [])]
     for call_no, weights in enumerate(vectors):
+        if call_no and case.get('move_cash'):
+            # the portfolio's equity changes between two calls on the same sizer (same instant)
+            c_ = b.get_portfolio_cash_balance('p')
+            if c_ > 2:
+                b.withdraw_funds_from_portfolio('p', float('%.6g' % (0.4 * c_)))
+                all_cls.append('equity_changed_between_calls')
+        E = F(b.get_portfolio_total_equity('p'))
         out = sizer(kit.T_OPEN, dict(weights))
         if set(out.keys()) != set(weights.keys()):
             raise Violation('target keys %s differ from weight keys %s' % (sorted(out), sorted(weights)))
@@ -191,13 +198,17 @@ equity = st.one_of(gen.logu(1e2, 1e10), gen.logu(1e3, 1e7), gen.logu(1e2, 1e10),
 @st.composite
 def cases(draw):
     assets = draw(st.lists(st.sampled_from(kit.ASSET_POOL), min_size=1, max_size=6, unique=True))
-    kind = draw(st.sampled_from(['mixed', 'mixed', 'mixed', 'sparse', 'all_zero', 'near_zero', 'ints', 'single']))
+    kind = draw(st.sampled_from(['mixed', 'mixed', 'mixed', 'sparse', 'all_zero', 'near_zero', 'ints', 'single', 'near_one']))
     if kind == 'single':
         assets = assets[:1]
     if kind == 'all_zero':
         w = {a: 0.0 for a in assets}
     elif kind == 'near_zero':
         w = {a: draw(st.sampled_from([0.0, 1e-12, 1e-10, 3e-11])) for a in assets}
+    elif kind == 'near_one':
+        # a vector that sums to almost - not exactly - one (0.333333 x 3, 0.499999 x 2, ...): still normalised
+        n_ = len(assets)
+        w = {a: float('%.6f' % (1.0 / n_ - draw(st.sampled_from([0.0, 1e-6, 3e-6])))) for a in assets}
     elif kind == 'ints':
         w = {a: float(draw(st.integers(0, 3))) for a in assets}
     elif kind == 'sparse':
@@ -235,6 +246,7 @@ def cases(draw):
     elif inv == 'nan_price':
         case['nan_asset'] = draw(st.sampled_from(assets))
         case.pop('hold', None)
+    case['move_cash'] = draw(st.booleans())
     if inv:
         case['invalid'] = inv
         case.pop('more_weights', None)
